@@ -52,3 +52,52 @@ Theorem in_place_same o s :
   hs_replace_obsolete o s = hs_with_replaced o s /\
   hs_remove_modifier o s = hs_without_modifier o s.
 Proof. repeat split. Qed.
+
+(* child_nodes keeps exactly the members that are not an ancestor of any member *)
+Theorem child_nodes_spec o s r :
+  (forall m t, In m s -> o_get m o = Some t -> sorted (t_allp t)) ->
+  hs_child_nodes o s = Ok r ->
+  sorted r /\ forall x, In x r <-> In x s /\ ~ exists m t, In m s /\ o_get m o = Some t /\ In x (t_allp t).
+Proof.
+  intros Hsorted. unfold hs_child_nodes. intros H.
+  destruct (mapM _ s) as [keep| | |] eqn:E; cbn [bind] in H; try discriminate.
+  injection H as <-. split; [apply g_from_list_sorted|]. intros x.
+  rewrite g_from_list_In, in_map_iff. apply mapM_Ok in E. split.
+  - intros [[y fl] [Hy Hin]]. cbn [fst] in Hy. subst y. apply filter_In in Hin as [Hin Hfl]. cbn [snd] in Hfl. subst fl.
+    destruct (Forall2_In_r _ _ _ _ E Hin) as [x' [Hx' Hk]].
+    destruct (mapM (fun t2 => do t <- hs_term o t2 ;; Ok (negb (g_contains x' (t_allp t)))) s) as [flags| | |] eqn:Ef;
+      cbn [bind] in Hk; try discriminate.
+    injection Hk as -> Hall. split; [exact Hx'|].
+    intros [m [t [Hm [Hget Hanc]]]]. apply mapM_Ok in Ef.
+    destruct (Forall2_In_l _ _ _ _ Ef Hm) as [fl [Hfl Hc]].
+    apply hs_term_Ok in Hget. rewrite Hget in Hc. cbn [bind] in Hc. injection Hc as <-.
+    rewrite forallb_forall in Hall. specialize (Hall _ Hfl).
+    apply negb_true_iff in Hall. apply (g_contains_spec x _ (Hsorted m t Hm (proj1 (hs_term_Ok o m t) Hget))) in Hanc. congruence.
+  - intros [Hx Hno]. destruct (Forall2_In_l _ _ _ _ E Hx) as [[y fl] [Hin Hk]].
+    destruct (mapM (fun t2 => do t <- hs_term o t2 ;; Ok (negb (g_contains x (t_allp t)))) s) as [flags| | |] eqn:Ef;
+      cbn [bind] in Hk; try discriminate.
+    injection Hk as <- <-. exists (x, forallb (fun b => b) flags). split; [reflexivity|].
+    apply filter_In. split; [exact Hin|]. cbn [snd]. apply forallb_forall. intros b Hb.
+    apply mapM_Ok in Ef. destruct (Forall2_In_r _ _ _ _ Ef Hb) as [m [Hm Hc]].
+    destruct (hs_term o m) as [t| | |] eqn:Et; cbn [bind] in Hc; try discriminate. injection Hc as <-.
+    apply negb_true_iff. destruct (g_contains x (t_allp t)) eqn:Eg; [|reflexivity]. exfalso. apply Hno.
+    apply hs_term_Ok in Et. exists m, t. split; [exact Hm|]. split; [exact Et|].
+    apply (g_contains_spec x _ (Hsorted m t Hm Et)). exact Eg.
+Qed.
+
+(* without_modifier keeps exactly the members that are not modifier terms *)
+Theorem without_modifier_spec o s r : hs_without_modifier o s = Ok r ->
+  sorted r /\ forall x, In x r <-> In x s /\ exists t, o_get x o = Some t /\ is_modifier o t = false.
+Proof.
+  unfold hs_without_modifier. intros H.
+  destruct (resolve_all o s) as [ts| | |] eqn:E; cbn [bind] in H; try discriminate.
+  injection H as <-. split; [apply g_from_list_sorted|]. intros x.
+  rewrite g_from_list_In, in_map_iff. unfold resolve_all in E. apply mapM_Ok in E. split.
+  - intros [t [Hid Ht]]. apply filter_In in Ht as [Ht Hm].
+    destruct (Forall2_In_r _ _ _ _ E Ht) as [m [Hmin Hget]]. unfold resolve in Hget. apply hs_term_Ok in Hget.
+    pose proof (o_get_id _ _ _ Hget) as Hidm. assert (m = x) as -> by congruence.
+    split; [exact Hmin|]. exists t. split; [exact Hget|]. apply negb_true_iff, Hm.
+  - intros [Hx [t [Hget Hm]]]. destruct (Forall2_In_l _ _ _ _ E Hx) as [t' [Ht' Hget']].
+    unfold resolve in Hget'. apply hs_term_Ok in Hget'. assert (t' = t) as -> by congruence.
+    exists t. split; [apply (o_get_id _ _ _ Hget)|]. apply filter_In. split; [exact Ht'|]. apply negb_true_iff, Hm.
+Qed.
